@@ -450,11 +450,16 @@ svalue_t *safe_apply (const char *fun, object_t * ob, int num_arg, int where)
           ret = apply (fun, ob, num_arg, where);
         }
       else
-        ret = 0;
+        {
+          pop_n_elems (num_arg);	/* apply() would have consumed them */
+          ret = 0;
+        }
     }
   else
     {
       restore_context (&econ);
+      /* the saved stack pointer includes the arguments: drop them like apply() does */
+      pop_n_elems (num_arg);
       ret = 0;
     }
   pop_context (&econ);
